@@ -489,6 +489,8 @@ def truthy(v):
             return v.e != 0
         if k == 'real':
             return v.e != 0
+        if k == 'str':
+            return v.e != REG.strlit('')          # a string is true iff it is not empty
         raise OutOfSubset("truthiness of symbolic %s" % k)
     if isinstance(v, SymOpt):
         t = truthy(v.val)
